@@ -8,7 +8,10 @@
 
 package py
 
-import "bytes"
+import (
+	"bytes"
+	"reflect"
+)
 
 var SetType = NewTypeX("set", "set() -> new empty set object\nset(iterable) -> new set object\n\nBuild an unordered collection of unique elements.", SetNew, nil)
 
@@ -52,9 +55,27 @@ func init() {
 		if len(args) != 1 {
 			return nil, ExceptionNewf(TypeError, "append() takes exactly one argument (%d given)", len(args))
 		}
+		if err := CheckHashable(args[0]); err != nil {
+			return nil, err
+		}
 		setSelf.Add(args[0])
 		return NoneType{}, nil
 	}, 0, "add(value)")
+}
+
+// CheckHashable returns a TypeError if item cannot be a member of a set
+//
+// Set members are keys of a go map, so values whose go type is not
+// comparable (tuples, lists, dicts, bytes) would panic when hashed
+func CheckHashable(item Object) error {
+	if item == nil || !reflect.TypeOf(item).Comparable() {
+		name := "NoneType"
+		if item != nil {
+			name = item.Type().Name
+		}
+		return ExceptionNewf(TypeError, "unhashable type: '%s'", name)
+	}
+	return nil
 }
 
 // Add an item to the set
